@@ -184,6 +184,28 @@ class SimFS:
     def exists(self, path):
         return self.isdir(path) or str(path) in self.files
 
+    def isfile(self, path):
+        return str(path) in self.files
+
+    def getsize(self, path):
+        if str(path) not in self.files:
+            raise FileNotFoundError(errno.ENOENT, "No such file or directory", str(path))
+        return len(self.files[str(path)])
+
+    def remove(self, path, *a, **k):
+        path = str(path)
+        if path in self.dirs:
+            raise IsADirectoryError(errno.EISDIR, "Is a directory", path)
+        if path not in self.files:
+            raise FileNotFoundError(errno.ENOENT, "No such file or directory", path)
+        del self.files[path]
+
+    def rename(self, src, dst, *a, **k):
+        src, dst = str(src), str(dst)
+        if src not in self.files:
+            raise FileNotFoundError(errno.ENOENT, "No such file or directory", src)
+        self.files[dst] = self.files.pop(src)
+
     def mkdir(self, path, *a, **k):
         path = str(path).rstrip("/")
         self.n["mkdir"] += 1
@@ -233,8 +255,9 @@ class SimFS:
         return Proxy(real_numpy, save=self.save, load=self.load)
 
     def os_proxy(self):
-        path = Proxy(real_os.path, isdir=self.isdir, exists=self.exists)
-        return Proxy(real_os, path=path, mkdir=self.mkdir, listdir=self.listdir)
+        path = Proxy(real_os.path, isdir=self.isdir, exists=self.exists, isfile=self.isfile, getsize=self.getsize)
+        return Proxy(real_os, path=path, mkdir=self.mkdir, listdir=self.listdir, remove=self.remove, unlink=self.remove,
+                     rename=self.rename, replace=self.rename)
 
     def shutil_proxy(self):
         return Proxy(real_shutil, rmtree=self.rmtree)
